@@ -75,7 +75,33 @@ func Verif_H09Translate() {
 	}
 	vrt.Assert(s.Close() == nil, "close-no-error")
 
-	switch vrt.Choose("scenario", 3+vrt.Param("crash", 0)) {
+	scen := vrt.Choose("scenario", 4+vrt.Param("crash", 0))
+	if scen == 3 && vrt.Param("crash", 0) == 0 {
+		scen = 4
+	} else if scen == 4 {
+		scen = 4
+	}
+	switch scen {
+	case 4: // bit size and index file size changed in one call: still refused
+		before := readDirImage(dir)
+		c2 := c
+		c2.bits = b2
+		vrt.Assume(b1 != b2)
+		c2.ifs = vrt.U32("other-ifs")
+		vrt.Assume(c2.ifs >= 1)
+		vrt.Assume(c2.ifs <= 1<<30)
+		vrt.Assume(c2.ifs != c.ifs)
+		_, err := openCfg(dir, c2)
+		var want types.ErrIndexWrongFileSize
+		vrt.Assert(err != nil && errors.As(err, &want), "index-file-size-mismatch-refused-also-when-bit-size-changes")
+		vrt.Assert(sameDirImage(before, readDirImage(dir)), "refused-open-leaves-directory-untouched", "which", "index+bits")
+		s3, err := openCfg(dir, c)
+		vrt.Assert(err == nil, "open-with-original-settings-no-error")
+		if err != nil {
+			return
+		}
+		checkAll(s3, keys, m, "after-refused-open")
+		vrt.Assert(s3.Close() == nil, "close3-no-error")
 	case 3: // interrupted re-bucketing: never a store that opens with fewer keys
 		c2 := c
 		c2.bits = b2
